@@ -178,7 +178,10 @@ class ExprBuilder:
             raise Undecided(f"constant {e.value!r}")
         if isinstance(e, ast.Name):
             if e.id in env:
-                return env[e.id]
+                v_ = env[e.id]
+                if isinstance(v_, tuple) and v_ and v_[0] == 'unknown':
+                    raise Undecided(f"value of {e.id} not understood ({v_[1]})")      # bound, but by an expression outside the vocabulary
+                return v_
             if self.resolve_attr is not None:
                 r = self.resolve_attr(e.id, env)
                 if r is not None:
